@@ -399,6 +399,10 @@ class EnvSim:
             self.oracle.query(op)
         elif kind == "burst":
             self._exec_burst(op)
+        elif kind == "epfreq":
+            self.counters.hit("fault.unscripted_episodes")
+            self.oracle.c07_episode_frequency(op)
+            self._do_reset()
         elif kind == "reconstruct":
             self.counters.hit("fault.restart.reconstruct")
             self._reconstruct()
@@ -527,7 +531,11 @@ class EnvSim:
                 op = self._gen_reset(wl)
             else:
                 r = wl.random()
-                if "C13" in self.props and wl.random() < 0.004:
+                if "C07" in self.props and wl.random() < 0.003:
+                    op = {"op": "epfreq", "pick": wl.randint(0, 50),
+                          "n": 500, "seed_first": wl.choice(
+                              [None, wl.randint(1, 10 ** 6)])}
+                elif "C13" in self.props and wl.random() < 0.004:
                     k = wl.choice(self.table.keys)
                     op = {"op": "burst", "a": [k[0], list(k[1]), k[2]],
                           "n": 600}
@@ -793,6 +801,12 @@ def run_one(prop, tier, root, idx, extra):
     fl = core.stream(seed, "faults")
     props = extra.get("props") or [prop]
     spec = configs.draw_spec(cfgr, extra.get("mix"))
+    if cfgr.random() < extra.get("huge_rate", 0.0):
+        p = configs.gen_params(cfgr, max_hosts=30)
+        p["num_hosts"] = cfgr.choice([201, 202, 205, 210])
+        p["address_space_bounds"] = None
+        p["uniform"] = False
+        spec = {"kind": "generated", "params": configs.fix_params(p, cfgr)}
     mt = cfgr.choice(extra.get("modes") or MODE_TRIPLES)
     modes = {"fully_obs": mt[0], "flat_actions": mt[1], "flat_obs": mt[2]}
     swarm = Swarm(core.stream(seed, "swarm"), props)
